@@ -741,14 +741,21 @@ class Reader:
                 this = ('tmp:' + e['cls'],)
             out = []
             params = callee.get('params', [])
-            for (vals, s2) in self.evs_args(args, params, st, ctx):
-                for fs in self.run(callee, vals, this, s2, ctx['depth'] + 1):
-                    r = fs.ret
-                    fs.returned, fs.ret = False, None
-                    if k == 'Construct':
-                        r = {p[-1]: v for p, v in fs.fields.items() if p[:len(this)] == this and len(p) == len(this) + 1}
-                    out.append((r, fs))
-            return out
+            try:
+                for (vals, s2) in self.evs_args(args, params, st, ctx):
+                    for fs in self.run(callee, vals, this, s2.copy(), ctx['depth'] + 1):
+                        r = fs.ret
+                        fs.returned, fs.ret = False, None
+                        if k == 'Construct':
+                            r = {p[-1]: v for p, v in fs.fields.items() if p[:len(this)] == this and len(p) == len(this) + 1}
+                        out.append((r, fs))
+                return out
+            except Unsupported:
+                # a callee this reader cannot interpret (loops ...) stays an uninterpreted function when it cannot write the
+                # caller's state: const methods and free functions; anything else is re-raised (the rule becomes UNDECIDED)
+                if not (callee.get('const') or not callee.get('cls')):
+                    raise
+                out = []
         # anything else: evaluate arguments for their effects, result opaque
         out = []
         if obj is not None and k in ('MCall', 'Op') and not e.get('mconst') and not e.get('mstatic') and name not in NONMUTATING:
